@@ -421,6 +421,8 @@ PROPS["C19"] = {
     "assumptions": ["(*client).lookupRegion is cut: after Close it answers ErrClientClosed as the real meta lookup does through SendRPC"],
     "jobs": [
         {"name": "close_race", "steps": 40000, "timeout_s": {"quick": 400, "thorough": 1800}, "pkg": "root", "entry": "VerifCloseRace", "stubs": EST_STUBS, "reach": ["closed"],
-         "preempts": {"quick": 2, "thorough": 3}, "params": {"quick": {"FAULTS": 0}, "thorough": {"FAULTS": 1}}},
+         "preempts": {"quick": 2, "thorough": 3}, "params": {"quick": {"FAULTS": 0, "ONLINE": 0}, "thorough": {"FAULTS": 1, "ONLINE": 0}}},
+        {"name": "close_race_online", "steps": 40000, "timeout_s": {"quick": 400, "thorough": 1800}, "pkg": "root", "entry": "VerifCloseRace", "stubs": EST_STUBS, "reach": ["closed"],
+         "preempts": {"quick": 1, "thorough": 2}, "params": {"quick": {"FAULTS": 2, "ONLINE": 1}, "thorough": {"FAULTS": 2, "ONLINE": 1}}},
     ],
 }
